@@ -32,8 +32,19 @@ func MakeFromRequest(r *http.Request) CacheKey {
 		scheme = "https"
 	}
 	normHost := strings.ToLower(r.Host)
-	normPath := path.Clean(r.URL.Path)
-	stringKey := fmt.Sprintf("%s|%s|%s|%s|%s", scheme, r.Method, normHost, normPath, r.URL.RawQuery)
+	// Normalise the path as it was sent (still percent-encoded, so that an encoded slash is not taken
+	// for a separator): dot segments and duplicate slashes go, but a trailing slash stays, because
+	// "/dir/" and "/dir" are different resources.
+	sentPath := r.URL.RawPath // Set whenever the path was not sent in its canonical encoding
+	if sentPath == "" {
+		sentPath = r.URL.EscapedPath()
+	}
+	normPath := path.Clean(sentPath)
+	if normPath != "/" && (strings.HasSuffix(sentPath, "/") || strings.HasSuffix(sentPath, "/.") || strings.HasSuffix(sentPath, "/..")) {
+		normPath += "/"
+	}
+	// Quote the client-controlled components so that no character can move across a component boundary.
+	stringKey := fmt.Sprintf("%s|%s|%q|%q|%q", scheme, r.Method, normHost, normPath, r.URL.RawQuery)
 	slog.Debug("Creating cache key", "key", stringKey)
 	return FromString(stringKey)
 }
